@@ -788,7 +788,8 @@ def tr_errors(tr, xtop=None, model='default', mdl=None, decoded_from=None, headr
 # ========================================================== Graph histories (C15)
 from penman.exceptions import GraphError  # noqa: E402
 
-_GFILTERS = [('a', None, None), (None, ':r', None), (None, None, 'b'), ('b', ':r', 'a'), (None, None, 'x')]
+_GFILTERS = [('a', None, None), (None, ':r', None), (None, None, 'b'), ('b', ':r', 'a'), (None, None, 'x'),
+             (None, ':instance', None), ('a', ':instance', 'a'), (None, ':instance', 'b')]
 
 
 def _gstate(g):
